@@ -12,6 +12,7 @@ import (
 	"context"
 	"crypto/ed25519"
 	"crypto/x509"
+	"encoding/base64"
 	"encoding/pem"
 	"fmt"
 	"go/ast"
@@ -107,12 +108,12 @@ type fnode struct {
 }
 
 func reg(name string, content []byte) *fnode { return &fnode{kind: kReg, name: name, content: content} }
-func dir(name string, ch ...*fnode) *fnode    { return &fnode{kind: kDir, name: name, children: ch} }
+func dir(name string, ch ...*fnode) *fnode   { return &fnode{kind: kDir, name: name, children: ch} }
 func lfile(name string, content []byte) *fnode {
 	return &fnode{kind: kLinkFile, name: name, content: content}
 }
 func ldir(name string, ch ...*fnode) *fnode { return &fnode{kind: kLinkDir, name: name, children: ch} }
-func other(kind int, name string) *fnode   { return &fnode{kind: kind, name: name} }
+func other(kind int, name string) *fnode    { return &fnode{kind: kind, name: name} }
 
 func (n *fnode) sx() Sx {
 	switch n.kind {
@@ -508,6 +509,10 @@ func c10Contents(r *Rng) [][]byte {
 		jwtWith(map[string]any{"sub": "alice"}, map[string]any{"alg": "none"}),
 		[]byte("f47ac10b-58cc-4372-a567-0e02b2c3d479\n"),
 		{0x00, 0xff, 0x0a, 0x0a},
+		// formats that are found by content sniffers looking at the file size or at text around a block:
+		// PEM preceded by other text (openssl -text / "Bag Attributes" output), base64 of DER
+		append([]byte("Bag Attributes\n    friendlyName: example\nsubject=CN = x\n"), pemb...),
+		[]byte(base64.StdEncoding.EncodeToString(der) + "\n"),
 	}
 }
 
